@@ -833,6 +833,9 @@ func NewInferer() *Inferer {
 	in.Ctors["N"] = &CtorInfo{Union: "U"}
 	in.Ctors["Some"] = &CtorInfo{Union: "Opt", Params: []string{"T"}, Payload: Con("T")}
 	in.Ctors["None"] = &CtorInfo{Union: "Opt", Params: []string{"T"}}
+	in.Records["Pr2"] = &RecInfo{Name: "Pr2", Params: []string{"A", "B"}, Fields: []FieldT{{"Rr", Con("B")}, {"Ll", Con("A")}}}
+	in.Ctors["Er2"] = &CtorInfo{Union: "Rs2", Params: []string{"T", "E"}, Payload: Con("E")}
+	in.Ctors["Ok2"] = &CtorInfo{Union: "Rs2", Params: []string{"T", "E"}, Payload: Con("T")}
 	in.Ctors["TagA"] = &CtorInfo{Union: "Tag", Params: []string{"T"}}
 	in.Ctors["TagB"] = &CtorInfo{Union: "Tag", Params: []string{"T"}}
 	mono := func(name, ty string) { in.Globals[name] = &Scheme{T: in.ParseType(ty, nil)} }
